@@ -2046,7 +2046,7 @@ func (dsc *dataStoreCommand) fieldAddInt(keyName, fieldName string, delta int64)
 			return
 		}
 		newVal := oldInt + delta
-		if (newVal > value) != (delta > 0) {
+		if (delta > 0 && newVal < oldInt) || (delta < 0 && newVal > oldInt) {
 			ve = VALUE_OVERFLOW
 			return
 		}
